@@ -305,7 +305,7 @@ def place_items(tier):
     out = []
     seeds = corpus.small_slice(max_lines=25)
     if tier != "quick":
-        seeds = sorted(set(seeds) | {s for s in corpus.seed_ids(("fix",)) if len(corpus.lines_of(s)) <= 20})
+        seeds = sorted(set(seeds) | {s for s in corpus.seed_ids(("fix",)) if len(corpus.lines_of(s)) <= 15})
     if tier == "quick":
         seeds = [s for s in seeds if s.startswith("fix/")] + [s for s in seeds if s.startswith("gen/")][::3]
     from .. import layout
